@@ -153,7 +153,9 @@ func (self *VM) spawnCore() *Core {
 	self.Cores.Lock.Lock()
 	defer self.Cores.Lock.Unlock()
 
-	ch := make(chan *value.VmInterrupt)
+	// Every core sends exactly one signal when it terminates.
+	// The buffer allows it to do so even if `Wait` has already returned due to another core's interrupt.
+	ch := make(chan *value.VmInterrupt, 1)
 	core := NewCore(
 		&self.Program.Functions,
 		hostcall,
